@@ -69,7 +69,7 @@ func zzH_C04_api() {
 		}
 		r = NewDefaultReader(src)
 	}
-	P := 0       // absolute cursor
+	P := 0        // absolute cursor
 	sinceRel := 0 // consumed since the last Release
 	var held []byte
 	heldAt, heldOK := 0, false
